@@ -39,6 +39,28 @@ func geoCheck2(op string, v []float64) (bool, string, string) {
 		if !okLat || !okLon {
 			return true, fmt.Sprintf("location (%v,%v) at %.3f m from the centre inside the rectangle", pl, po, r*f), fmt.Sprintf("lat[%v,%v] lon[%v,%v]", minLat, maxLat, minLon, maxLon)
 		}
+	case "rect-covers-tangent":
+		// lat, lon, radius, side (+1 east, -1 west): the location of the disc's
+		// rim with the extreme longitude offset on that side (found by ternary
+		// search on the reference destination) lies inside the rectangle
+		lat, lon, r, side := v[0], v[1], v[2], v[3]
+		off := func(b float64) float64 {
+			_, po := sphere.Dest(lat, lon, r, b)
+			return side * (math.Mod(po-lon+540, 360) - 180)
+		}
+		lo, hi := 0.0, 180.0
+		if side < 0 {
+			lo, hi = 180, 360
+		}
+		for i := 0; i < 100; i++ {
+			m1, m2 := lo+(hi-lo)/3, hi-(hi-lo)/3
+			if off(m1) < off(m2) {
+				lo = m1
+			} else {
+				hi = m2
+			}
+		}
+		return geoCheck2("rect-covers", []float64{lat, lon, r, (lo + hi) / 2, 1})
 	case "rect-shape":
 		lat, lon, r := v[0], v[1], v[2]
 		minLat, minLon, maxLat, maxLon := geo.RectFromCenter(lat, lon, r)
@@ -228,7 +250,7 @@ func runC14(r *rt.Run) {
 	r.Bounds["radii"] = radii
 	r.Bounds["bearing_step_deg"] = bstep
 	r.Bounds["fractions"] = []float64{1, 0.999, 0.5}
-	r.Rule = "full product: latitudes (incl. values with lat + r/R within +-4 ulp of the pole for every radius) x longitudes x radii x probe bearings x distance fractions {1, 0.999, 0.5}: the reference destination point must lie inside the rectangle (1 cm slack); per (lat, lon, radius): no NaN, world bounds, full longitude range when the disc reaches a pole or crosses the antimeridian, degenerate rectangle for unresolvable radii; non-trivial = radius >= 1 m"
+	r.Rule = "full product: latitudes (incl. values with lat + r/R within +-4 ulp of the pole for every radius) x longitudes x radii x probe bearings x distance fractions {1, 0.999, 0.5}: the reference destination point must lie inside the rectangle (1 cm slack); per (lat, lon, radius): no NaN, world bounds, full longitude range when the disc reaches a pole or crosses the antimeridian, degenerate rectangle for unresolvable radii; dense grid of 45 (80) irregular latitudes x 5 (8) longitudes x 17 mantissas x 7 decades of radii with the rim location of extreme longitude on either side found by ternary search; antimeridian approach (disc ending from 10 m short of to 10 m beyond the antimeridian in 12 steps, 6 latitudes x 4 radii, both sides); non-trivial = radius >= 1 m"
 	r.Assume = []string{"sphere radius 6371e3 m", "reference destination: verif/mc/sphere", "decided on the numeric lattice only"}
 	all := append(append([]float64(nil), lats...), tang...)
 	r.States.Add(int64(len(all) * len(lons) * len(radii)))
@@ -258,6 +280,73 @@ func runC14(r *rt.Run) {
 			}
 		}
 	})
+	// dense grid: irregular latitudes x mantissa x decade radii
+	var dl, dr []float64
+	for la := -85.0; la <= 85; la += 5 {
+		dl = append(dl, la)
+	}
+	dl = append(dl, 18.221, 9.7955, 51.477, -33.3, 66.56, 0.5, -27.5, -10.5, 89, -89.5, 1.23456)
+	for _, dec := range []float64{1, 10, 100, 1e3, 1e4, 1e5, 1e6} {
+		for _, m := range []float64{1, 1.0287, 1.1, 1.1723, 1.5, 2, 2.2, 2.5, 3, 3.5, 4, 5, 6, 6.371, 7, 8, 9} {
+			dr = append(dr, m*dec)
+		}
+	}
+	dlon := []float64{-180, -51, 0, 102, 179.9}
+	dstep := 10.0
+	if th {
+		dstep = 2
+		for la := -87.5; la <= 87.5; la += 5 {
+			dl = append(dl, la)
+		}
+		dlon = append(dlon, -120.5, 33.3, 179.9999)
+	}
+	r.Bounds["dense_grid"] = map[string]any{"latitudes": len(dl), "longitudes": dlon, "radii": len(dr), "bearing_step_deg": dstep}
+	r.ParFor(len(dl), func(i int, w *rt.Worker) {
+		lat := dl[i]
+		for _, lon := range dlon {
+			for _, rr := range dr {
+				w.Trans++
+				w.Nontriv++
+				geoRun(w, "rect-shape", lat, lon, rr)
+				for b := 0.0; b < 360; b += dstep {
+					geoRun(w, "rect-covers", lat, lon, rr, b, 1)
+				}
+				geoRun(w, "rect-covers-tangent", lat, lon, rr, 1)
+				geoRun(w, "rect-covers-tangent", lat, lon, rr, -1)
+			}
+		}
+	})
+	// antimeridian approach: the disc's extreme longitude ends from 10 m short
+	// of to 10 m beyond the antimeridian
+	{
+		w := r.Worker()
+		deltas := []float64{-10, -1, -0.1, -0.05, -0.02, 0, 0.02, 0.03, 0.05, 0.1, 1, 10}
+		cnt := 0
+		for _, lat := range []float64{0, 10, 33, -45, 60, -75} {
+			for _, rr := range []float64{100, 11119.55, 1e5, 1e6} {
+				ang := rr / sphere.R
+				cl := math.Cos(lat * math.Pi / 180)
+				if math.Sin(ang) >= cl {
+					continue
+				}
+				half := math.Asin(math.Sin(ang)/cl) * 180 / math.Pi
+				for _, dm := range deltas {
+					dd := dm / (sphere.R * cl) * 180 / math.Pi
+					for _, side := range []float64{1, -1} {
+						lon := side * (180 - half + dd)
+						cnt++
+						w.Trans++
+						w.Nontriv++
+						geoRun(w, "rect-shape", lat, lon, rr)
+						geoRun(w, "rect-covers-tangent", lat, lon, rr, side)
+						geoRun(w, "rect-covers-tangent", lat, lon, rr, -side)
+					}
+				}
+			}
+		}
+		r.Bounds["antimeridian_approach_cases"] = cnt
+		w.Flush()
+	}
 	r.Sample(geoCase("rect-covers", 60, 179.999, 1e5, 90, 1))
 	r.Sample(geoCase("rect-shape", 89.999, 0, 1e3))
 }
@@ -277,6 +366,7 @@ func runC13(r *rt.Run) {
 		radii = append(radii, 100, 1e4, 3e6, 1.5e7, 0.25, 2, 55.5, 12345.678, 2e6, 1.9e7)
 		factors = append(factors, 0.25, 0.9, 1-1e-6, 1+1e-6, 1.1, 2)
 	}
+	special := len(centres)
 	coarse := len(radii) // the alphabet used for monotonicity / circle-circle / serialisation
 	// dense grid: every mantissa x decade radius at every (lat, lon) of a grid
 	// with poles, near-poles, the antimeridian and irregular values
@@ -304,12 +394,16 @@ func runC13(r *rt.Run) {
 	r.Bounds["absolute_offsets_m"] = offsets
 	r.Bounds["bearing_step_deg"] = bstep
 	r.Bounds["step_counts"] = "-1..4096"
-	r.Rule = "full product centres (7 special + 13 x 10 grid of latitudes incl. near-poles x longitudes incl. antimeridian) x radii (15 boundary values + 13 mantissas x 11 decades from 1 mm to 10,000 km) x bearings x distance factors (probe = reference destination point) as Point and SimplePoint, both operand orders, contains and intersects; monotonicity along the radius alphabet; circle-circle over the same grid x radius alphabet; serialisation / polygon for radii incl. negative, NaN, Inf, 3piR and every step count -1..4096; non-trivial = probe outside the tolerance band"
+	r.Rule = "full product centres (7 special + 13 x 10 grid of latitudes incl. near-poles x longitudes incl. antimeridian) x radii (15 boundary values + 13 mantissas x 11 decades from 1 mm to 10,000 km) x bearings x distance factors (probe = reference destination point; every 30 degrees also with the probe longitude written +-360 degrees away) as Point and SimplePoint, both operand orders, contains and intersects; monotonicity along the radius alphabet; circle-circle over the same grid x radius alphabet; serialisation / polygon for radii incl. negative, NaN, Inf, 3piR and every step count -1..4096; non-trivial = probe outside the tolerance band"
 	r.Assume = []string{"sphere radius 6371e3 m", "reference distance: verif/mc/sphere; inside the stated band (max(1 mm, 1e-8 r)) either answer is accepted"}
 	r.States.Add(int64(len(centres) * len(radii)))
 	r.ParFor(len(centres)*len(radii), func(i int, w *rt.Worker) {
 		c, rr := centres[i/len(radii)], radii[i%len(radii)]
-		for b := 0.0; b < 360; b += bstep {
+		step := bstep
+		if th && (i%len(radii) >= coarse || i/len(radii) >= special) {
+			step = 5 // thorough: 1 degree for the boundary radii at the special centres, 5 degrees over the dense grid
+		}
+		for b := 0.0; b < 360; b += step {
 			for _, f := range factors {
 				if rr*f > piR {
 					continue
@@ -320,6 +414,11 @@ func runC13(r *rt.Run) {
 					w.Nontriv++
 				}
 				geoRun(w, "circle-point", c.lat, c.lon, rr, pl, po)
+				if int(b)%30 == 0 {
+					// the same place with its longitude written a full turn away
+					geoRun(w, "circle-point", c.lat, c.lon, rr, pl, po+360)
+					geoRun(w, "circle-point", c.lat, c.lon, rr, pl, po-360)
+				}
 				for _, r2 := range radii[:coarse] {
 					if r2 > rr {
 						geoRun(w, "circle-monotone", c.lat, c.lon, rr, r2, pl, po)
